@@ -73,6 +73,7 @@ type nilSite struct {
 }
 
 type nilAnalysis struct {
+	abdCache map[string]*Fact
 	overflow map[*ssa.Function]bool
 	deadline time.Time
 	timedOut bool
@@ -95,7 +96,7 @@ func (c *Ctx) nilAnalysis() *nilAnalysis {
 	}
 	c.forallPredicates()
 	na := &nilAnalysis{c: c, requires: map[*ssa.Function][]nilReq{}, sites: map[*ssa.Function][]nilSite{}, failed: map[*ssa.Function][]nilFail{}, overflow: map[*ssa.Function]bool{}}
-	na.deadline = time.Now().Add(180 * time.Second)
+	na.deadline = time.Now().Add(20 * time.Minute)
 	c.nilA = na
 	for _, fn := range c.p.Funcs {
 		na.sites[fn] = append(na.collectSites(fn), na.collectReflSites(fn)...)
@@ -228,6 +229,33 @@ func (na *nilAnalysis) collectSites(fn *ssa.Function) []nilSite {
 				}
 			case *ssa.MapUpdate:
 				out = append(out, na.nnSite(in, x.Map, "write to map"))
+			case *ssa.TypeAssert:
+				if !x.CommaOk {
+					xa := x
+					out = append(out, nilSite{rule: "R-TA", instr: in, what: "unchecked assertion to " + typeStr(x.AssertedType), need: func(fa *FnAnalysis, s *State) []Fact {
+						t := c.eng.tt.mk(Term{K: "TAOK", S: typeStr(xa.AssertedType), Typ: xa.AssertedType, A: fa.term(s, xa.X)})
+						if v, ok := fa.knownTerm(s, aTR, t); ok && v {
+							return nil
+						}
+						return []Fact{{aTR, t, true}}
+					}})
+				}
+			case *ssa.BinOp:
+				if x.Op == token.QUO || x.Op == token.REM {
+					if b, ok := x.Y.Type().Underlying().(*types.Basic); ok && b.Info()&types.IsInteger != 0 {
+						xb := x
+						out = append(out, nilSite{rule: "R-DIV", instr: in, what: "integer division", need: func(fa *FnAnalysis, s *State) []Fact {
+							if k, ok := constIntOf(xb.Y); ok && k != 0 {
+								return nil
+							}
+							zero := c.eng.tt.mk(Term{K: "B", S: "==", A: c.intConst(0), B: fa.term(s, xb.Y)})
+							if v, ok := fa.knownTerm(s, aTR, zero); ok && !v {
+								return nil
+							}
+							return []Fact{{aTR, zero, false}}
+						}})
+					}
+				}
 			case *ssa.Call, *ssa.Defer, *ssa.Go:
 				cc := callCommon(in)
 				if cc.IsInvoke() {
@@ -359,7 +387,7 @@ func (na *nilAnalysis) addReq(fn *ssa.Function, r nilReq) bool {
 		}
 		na.requires[fn] = keep
 	}
-	if len(na.requires[fn]) >= 48 {
+	if len(na.requires[fn]) >= 96 {
 		// budget: do not let preconditions multiply without bound; an unrecorded need
 		// is reported at the site instead (never silently dropped)
 		na.overflow[fn] = true
@@ -627,6 +655,24 @@ func (na *nilAnalysis) siteOK(fa *FnAnalysis, site nilSite) bool {
 // receiver is non-nil").  Candidates: every pointer/interface/map/func
 // parameter, and the embedded pointer of every Stack/Condition parameter.
 func (na *nilAnalysis) abduce(fn *ssa.Function, site nilSite) *Fact {
+	// identical queries recur in every round of the fixpoint: memoise
+	key := fmt.Sprintf("%s|%d|%s", relName(fn), na.c.eng.instrID[site.instr], assumeKey(na.assumptions(fn)))
+	if site.call != nil {
+		key += "|" + reqsKey(na.callee[na.c.p.callee(site.call)])
+	}
+	key += "|" + reqsKey(na.requires[fn])
+	if na.abdCache == nil {
+		na.abdCache = map[string]*Fact{}
+	}
+	if f, ok := na.abdCache[key]; ok {
+		return f
+	}
+	f := na.abduceUncached(fn, site)
+	na.abdCache[key] = f
+	return f
+}
+
+func (na *nilAnalysis) abduceUncached(fn *ssa.Function, site nilSite) *Fact {
 	c := na.c
 	var cands []Fact
 	for i, p := range fn.Params {
@@ -864,6 +910,9 @@ func (c *Ctx) ruleCensus(scope []*ssa.Function, rules map[string]bool) {
 				}
 				if rq.fact.Kind == aTR {
 					rule = "R-BND"
+					if rq.fact.T.K == "TAOK" {
+						rule = "R-TA"
+					}
 				}
 				if !rules[rule] {
 					continue
